@@ -20,7 +20,7 @@ PROFILE = {
                 'call': 1, 'api_disconnect': 3, 'enter': 3, 'leave': 2, 'close': 1, 'rooms': 2, 'lost': 3,
                 'partial_binary': 2, 'session': 4, 'hostile': 4},
     'connect_outcomes': {'accept': 5, 'false': 1, 'refuse': 2, 'raise': 1},
-    'event_raise': 0.1, 'disconnect_raise': 0.1,
+    'event_raise': 0.1, 'disconnect_raise': 0.3,
 }
 
 
@@ -171,7 +171,7 @@ def client_parity(ctx, ncases, nops):
 def run(ctx):
     a = C.proof_step(ctx, ['parity itself is decided by executing the same scenarios on both families (translation validation); '
                            'the theorems cover only the source-derived tables'])
-    programs, disagreements, samples, nontriv = server_parity(ctx, ctx.scale(120, 2500), 50)
+    programs, disagreements, samples, nontriv = server_parity(ctx, ctx.scale(220, 3000), 50)
     sub = {}
     try:
         cp, cd = client_parity(ctx, ctx.scale(150, 3000), 24)
